@@ -172,5 +172,5 @@ Proof.
 Qed.
 
 (* the objects a node creates carry exactly the configured trusted keys *)
-Lemma new_instance_trust : forall n salt i, pc_init (snd (new_instance n salt)) = Some i -> i_trusted i = c_trusted (n_cfg n).
+Lemma new_instance_trust : forall n salt i, pc_init (snd (new_instance n salt)) = Some i -> i_trusted i = eff_trusted (n_cfg n).
 Proof. intros n salt i H. unfold new_instance, pc_new in H. cbn in H. inversion H. reflexivity. Qed.
